@@ -218,7 +218,16 @@ func (a SortableMsgs) Less(i int, j int) bool {
 	aiLoc := ai.Data.Location
 	ajLoc := aj.Data.Location
 	if aiLoc == nil || ajLoc == nil {
-		return aiLoc == nil && ajLoc != nil
+		if aiLoc == nil && ajLoc == nil {
+			// Messages without a location can come from goroutines running in
+			// parallel or from iterating over a map. Give them a total order too
+			// so that the order of the returned messages is deterministic.
+			if ai.Kind != aj.Kind {
+				return ai.Kind < aj.Kind
+			}
+			return ai.Data.Text < aj.Data.Text
+		}
+		return aiLoc == nil
 	}
 	if aiLoc.File != ajLoc.File {
 		return aiLoc.File.Abs < ajLoc.File.Abs || (aiLoc.File.Abs == ajLoc.File.Abs && aiLoc.File.Rel < ajLoc.File.Rel)
